@@ -24,7 +24,7 @@ THEOREMS = ['C07_extend_assoc', 'C07_extend_empty_r', 'C07_extend_empty_l',
             'C07_fields_order_sorted_nodup', 'C07_fields_order_entry', 'C07_fields_order_agree',
             'C07_fields_order_agree_visible', 'C07_observers_agree',
             'C07_remove_key_exact', 'C07_remove_key_order', 'C07_remove_then_extend',
-            'C07_extend_then_remove_hides_only_inner', 'C07_nonvacuous', 'C07_prefix_defect_witness']
+            'C07_extend_then_remove_hides_only_inner', 'C07_build_wf', 'C07_build_assoc', 'C07_nonvacuous', 'C07_prefix_defect_witness']
 ALLOWED_AXIOMS = set()
 TRANSLATORS = []
 
@@ -435,6 +435,8 @@ def run_chains(run, cases, impl_exe, model_exe, tier, label):
         k = len(atoms)
         main = combine(c['tree'], texts)
         e = tree_expr(c['tree'], atoms)
+        if any(len(s) != n for s, n in literal_name_counts(e, [])):
+            raise RuntimeError('generator produced a literal with a repeated field name (outside wf_oexpr): %s' % expr_tok(e))
         mlines.append('%s\t%s\t%s' % (cid, expr_tok(e), ' '.join(nm_tok(n) for n in names)))
         inf = {'main': main, 'expr': e, 'texts': texts}
         # K programs
@@ -644,6 +646,19 @@ def run_chains(run, cases, impl_exe, model_exe, tier, label):
             run.nontrivial.add(expr_tok(inf['expr']))
         if len(run.samples) < 4 and multi:
             run.samples.append({'program': inf['main'][:400], 'model_case': expr_tok(inf['expr'])[:300], 'model_answer': mr[:300]})
+
+
+def literal_name_counts(e, acc):
+    """(set of names, number of fields) per literal: C07_build_wf needs distinct names in every literal"""
+    if e[0] == 'L':
+        acc.append((set(f[0] for f in e[1]), len(e[1])))
+    elif e[0] in 'PG':
+        literal_name_counts(e[1], acc); literal_name_counts(e[2], acc)
+    elif e[0] in 'RN':
+        literal_name_counts(e[1], acc)
+    elif e[0] == 'M':
+        literal_name_counts(e[2], acc)
+    return acc
 
 
 def kinds_of_all(atoms):
